@@ -59,21 +59,21 @@ EXPLANATION = {
     "C01": _COMMON + "Decided clauses: AG-1 every operator documented as dual-mode has a mux arm or is composed only of dual-mode rxsci "
            "operators (RxPY operators only in plain arms); AG-2 both arms of each of the 13 dispatch sites receive the same user parameters; "
            "AG-3 the operators implemented twice in the repo (scan, flat_map, assert_1, tee_map join) have equal per-item / completion "
-           "skeletons; AG-3b unset markers of siblings; FW-2 first/take/last emit what their list definition (and RxPY) says. Not decided: that a *_mux body equals the RxPY operator of the plain arm.",
+           "skeletons; AG-3b unset markers of siblings; FW-2 first/take/last emit what their list definition (and RxPY) says; SC-1 fold skeleton of scan; TM-4 and ST-5 tee_map join skeleton and reset of the join slots at the end of a key (state left over for the next key served by the same index makes the two arms disagree). Not decided: that a *_mux body equals the RxPY operator of the plain arm.",
     "C02": _COMMON + "Decided clauses: ST-1 mux handlers write no closure data outside the Probe branch; ST-2 every state id is add_key'd "
            "on every creation path; ST-3 indices used during a lifetime are included in those initialised at creation (affine index sets "
            "key[0], key[0]*D+[0,D)); ST-4 no use after del_key; ST-5 tee_map join table reset covers the slots written; ST-6 injective child "
-           "indices; WC-1 frame condition on the store; MS-1..5 add_key/del_key/set/get of the memory store (re-initialisation at creation). Not decided: values; user closures.",
+           "indices; WC-1 frame condition on the store (by reachability from the mux handlers); MS-1..5 add_key/del_key/set/get of the memory store (re-initialisation at creation); TM-5 join table growth; SD-1 the scan seed reaches per-key state only through seed() / deepcopy(seed). Not decided: values; user closures.",
     "C03": _COMMON + "Per-operator protocol preservation for the 32 MuxObservable construction sites: MX-1..4 per-kind lifecycle "
            "obligations, LV typestate of child keys in the five grouping heads (ghost state P = liveness downstream, S = liveness recorded in "
            "the store, invariant S = P while the parent is live), MX-5 sandwich and demux, MX-6 root, MX-7 tee_map de-duplication, MX-8 "
            "terminals add no events, WC-2 constructor frame. The induction over composition is stated in DESIGN.md, not mechanised.",
     "C04": _COMMON + "Decided clauses: EQ-1 no identity comparison on user values in group_by / MemoryStore; FW-1 every item is forwarded "
            "unchanged to exactly the child whose index is the map entry of key_mapper(item); FL-1 open groups are flushed by iterating the "
-           "parent's dict itself (insertion order); LV for group_by. Not decided: hash/eq consistency of user keys.",
+           "parent's dict itself (insertion order); LV for group_by; MS-1..5 incl. the group-index allocator (a popped free slot or next_index, per mapper state). Not decided: hash/eq consistency of user keys.",
     "C05": _COMMON + "Decided clauses: DP-0 every item is delivered once to every open window (delivery loop covers the whole ring; FW-1 for the tumbling variant); DP-1 counter incremented exactly once per item and reset with the parent; DP-2 a window opens iff "
            "counter % stride == 0 in slot (counter // stride) % density storing the counter, and closes iff counter - start + 1 == window "
-           "(tests compared in linear normal form); DP-3 flush order depends on the ring phase; ST-2/3/4/6 on the slot ring; LV. Not "
+           "(tests compared in linear normal form; the tumbling implementation is chosen exactly when window == stride); DP-3 partial windows are flushed from slot ceil(counter / stride) % density; ST-2/3/4/6 on the slot ring (scoped to roll.py); LV. Not "
            "decided: that density = ceil(window/stride) slots suffice (explicit assumption), exact window contents.",
     "C06": _COMMON + "Decided clauses: EQ-1 in split.py; FW-1; DP-4 the boundary test is ==/!= between predicate(item) and the stored "
            "predicate, after every item the stored predicate is that of the item, and child events are Create,Next / Completed,Create,Next / "
@@ -89,17 +89,19 @@ EXPLANATION = {
            "accumulators do not mutate items or free state and mappers downstream of a scan do not mutate the live accumulator.",
     "C10": _COMMON + "Decided clauses: FW-2 per-path emission multiplicity and bookkeeping of first, take (countdown > 0, minus exactly 1), "
            "last, pad_start/pad_end, start_with, lag(1)/lag(n), distinct; DP-6 batch flag is len(batch) == batch_size on every path and the "
-           "terminator's flag depends on the pending batch; DP-8 seed slots compared by value are private markers; SO-1 sort delegates to one stable sorted(items, key=key, reverse=reverse); EQ-1.",
+           "terminator flags the pending list exactly when it was not already emitted and is not empty; DP-8 seed slots compared by value are private markers; SO-1 sort delegates to one stable sorted(items, key=key, reverse=reverse); EQ-1.",
     "C11": _COMMON + "Decided clauses: PR-1 no scheduler/timer/thread call outside the three sources and every emission is made inside a "
            "handler; PR-2 the set of completion-time emitters is exactly scan(reduce/terminator), last, pad_end (plus named plain codecs); "
-           "PR-3 windows/segments are completed while their closing item is handled; DP-6; ST-1 (no buffering of items in closures).",
+           "PR-3 windows/segments are completed while their closing item is handled, and an item that restarts the time_split window "
+           "completes the old window and creates the new one on the same path; DP-6 (exact batch flags); ST-1 (no buffering of items in closures).",
     "C12": _COMMON + "Decided clauses: NM-1 the update recurrences and output formulas of sum, mean, min, max, variance (Welford: the "
            "(mean, M2, count) invariant determines the update uniquely), formal.variance (centred second moment, not E[x^2] - mean^2), "
            "_moment and both stddev equal the reference ones as rational functions / comparison polarity; variance of fewer than two items "
            "is 0; AG-4 one code path shared by streaming and reduce; PU-1 purity of accumulators and output mappers. Rounding error, i.e. "
            "the accuracy bound itself, is not decidable statically and is not claimed.",
     "C13": _COMMON + "Decided clauses: ER-1 every user call of map/filter/scan is inside a try catching Exception whose handler emits exactly "
-           "one OnErrorMux(key, exception, store) and no state was written before the raise; ER-2 ignore / error.map / router behaviour "
+           "one OnErrorMux(key, exception, store), no state was written before the raise and the key's state is neither released nor "
+           "re-created by the failing item; ER-2 ignore / error.map / router behaviour "
            "per kind incl. dead-letter completion order; ER-3 both demultiplexers turn a mux error into on_error; WC-2.",
     "C14": _COMMON + "Induction over operation sequences: every MemoryStore method preserves the representation invariant and the frame: "
            "MS-1 lock-step growth up to key[0]; MS-2 writes only at key[0]; MS-3 marker table; MS-4 allocator freshness; MS-5 typecode table; "
